@@ -3,6 +3,7 @@ import DSV.Generated.Facts
 import DSV.Cost.Wire
 import DSV.Cost.Decimal
 import DSV.Cost.Validate
+import DSV.Cost.Errors
 open Lean
 namespace Driver
 open DSV DSV.Cost DSV.LLO
@@ -35,6 +36,9 @@ def familyCost (family : String) (n : Nat) : P Nat :=
   -- F2: the proved lower bound (theorem `F2_witness`); evaluating `cmpCost f2Witness _` itself would
   -- materialise 10^(2^31) inside the model as well
   | "f2" => pure (f2Witness.exp.natAbs + 1)
+  -- 5 definitions × n zero-aggregator streams: 5n errors of about 110 bytes, joined once / one by one
+  | "verify-errors" => pure (formatOnce (List.replicate (5 * n) 110))
+  | "verify-errors-nested" => pure (formatNested (List.replicate (5 * n) 110))
   | _ => throw s!"unknown family {family}"
 where
   wrapSVBytes (inner : List UInt8) : List UInt8 := [8, 2, 18] ++ (varint inner.length ++ inner)
